@@ -66,6 +66,29 @@ def gen_cases(rng, tier):
             q = {'k': 'mk', 'n': rng.choice([['int', '3/1'], ['frac', '1/3'], ['dec', '5/4']]),
                  'u': u, 'via': via}
         cases.append({'dm': rng.choice(W.MODES), 'pre': False, 'script': script, 'hist': [], 'q': q})
+    # a type declared as a Python SUB-CLASS of a concrete quantity type is a separate type:
+    # its units are not units of the parent and vice versa (seeded change C15-c)
+    for i in range(40 if tier == 'quick' else 400):
+        tag = ''.join(rng.choice('abcdefghk') for _ in range(3))
+        script, w, exp = RW.gen_history(rng, tag)
+        parents = [c for c, v in w.classes.items() if c != 'Quantity' and c != 'Money'
+                   and not v['cdef'] and v['ref'] and v['quantum'] is None]
+        if not parents:
+            continue
+        par = rng.choice(parents)
+        sub = {'d': 'cls', 'name': 'S' + tag, 'def': None, 'ref': 's' + tag + 'r', 'quantum': None,
+               'base': par}
+        su = {'d': 'unit', 'cls': 'S' + tag, 'sym': 's' + tag + 'u',
+              'def': ['qty', ['int', '12/1'], 's' + tag + 'r']}
+        script = script + [sub, su]
+        w.apply(sub), w.apply(su)
+        pu = rng.choice(w.classes[par]['units'])
+        for u, via in ((su['sym'], par), (pu, sub['name']), (su['sym'], sub['name']),
+                       (sub['ref'], None), (sub['ref'], par)):
+            cases.append({'dm': 'MHEVEN', 'pre': False, 'script': script, 'hist': [],
+                          'q': {'k': 'mk', 'n': ['int', '3/1'], 'u': u, 'via': via}})
+        cases.append({'dm': 'MHEVEN', 'pre': False, 'script': script, 'hist': [],
+                      'q': _dirq(w, script)})
     # the predefined catalogue as a history + further declarations on top of it
     syms = None
     for i in range(6 if tier == 'quick' else 40):
